@@ -289,7 +289,11 @@ func (s *State) Commit() ([]byte, error) {
 func (s *State) Import(state types.AppState, version string) error {
 	defer s.Checker.RemoveBaseCoin()
 
-	s.App.SetReward(helpers.StringToBigInt(state.PrevReward.Reward), helpers.StringToBigInt(state.PrevReward.Reward))
+	safeReward := state.PrevReward.SafeReward
+	if safeReward == "" {
+		safeReward = state.PrevReward.Reward
+	}
+	s.App.SetReward(helpers.StringToBigInt(state.PrevReward.Reward), helpers.StringToBigInt(safeReward))
 	s.App.SetMaxGas(state.MaxGas)
 	s.App.SetCoinsCount(uint32(len(state.Coins)))
 
